@@ -20,6 +20,8 @@ CLAIM = dict(
           "subtract / maximum / minimum, sum, prod, amax, amin, accumulate_* / cumsum / cumprod on every shape of dim 1..4 extents "
           "1..3, every non-empty axis subset in two orders with mixed signs, axis None, keepdims absent / run-time bool / True_ / False_, "
           "initial absent / present, axis as int / std::vector / std::array / compile-time constants (meta::ct, tuple of ct), run-time-rank and fixed-rank arrays. mean / var / stddev / "
+          "An explicitly requested result dtype (float64 / int32 on int64 data) and uint8 data (the accumulator keeps the operand's element type: "
+          "f = op mod 256, an instance of the arbitrary f) are corresponded as well. "
           "vector_norm (double data, relative tolerance 1e-9; the model composes the views as mean.hpp / var.hpp do with the modelled "
           "fold order, the spec is the textbook formula on the designated elements) and trace are correspondence-level compositions: "
           "floating-point rounding of the C++ is outside the Coq model."),
@@ -28,7 +30,7 @@ CLAIM = dict(
 RULE = ("every shape dim 1..4 extents 1..3 (thorough: 1..4) x every non-empty subset of axes, each in sorted and in shuffled order with "
         "random signs, plus axis None and the empty axis list; op / entry point / keepdims spelling / initial / axis container / array "
         "kind rotate so that every combination class occurs; accumulate on every shape x every axis in both signs; statistics on a "
-        "sample of shapes; a few out-of-quantifier axis arguments (spec unspecified). non-trivial = source of dim >= 2 with an extent > 1; "
+        "sample of shapes; explicit dtype and uint8 samples; compile-time axis constants from a fixed table; a few out-of-quantifier axis arguments (spec unspecified). non-trivial = source of dim >= 2 with an extent > 1; "
         "distinct = distinct case lines")
 THEOREM_STATUS = {"proved": ["C08_reduce_shape", "C08_reduce_elem", "C08_axes_order_and_sign", "C08_axes_permutation_same_mask",
                              "C08_reduce_all_axes_eq_none", "C08_accumulate_on_domain", "C08_sum_prod_amax_amin",
@@ -75,10 +77,6 @@ def gen_cases(rng, tier):
     maxe = 3 if tier == "quick" else 4
     shapes = []
     for d in range(1, 5): shapes += list(itertools.product(range(1, maxe + 1), repeat=d))
-    if tier == "thorough":
-        # dim 4 with extents 1..4 is 256 shapes x 15 subsets: keep all of dim <= 3, sample dim 4
-        d4 = [s for s in shapes if len(s) == 4]
-        shapes = [s for s in shapes if len(s) < 4] + rng.sample(d4, 120)
     cnt = itertools.count()
 
     def reduce_line(shape, axis_tok, akind, n):
@@ -156,6 +154,19 @@ def gen_cases(rng, tier):
         fn = ["sum", "prod"][i % 2]
         init = "N" if rng.random() < 0.5 else "I:%d" % (rng.choice([1, -1, 2, 3]) if fn == "prod" else rng.randint(-20, 20))
         out.append(("dtype-arg", "dt S:%s S:%s S:%s %s %s %s" % (fn, ["f64", "i32"][(i // 2) % 2], KDS[i % 5], A(shape, data_for(rng, fn, size(shape))), ax, init), "c08s"))
+    # uint8 data: accumulation in the operand's element type (mod 256)
+    for i in range(200 if tier == "quick" else 1500):
+        shape = rng.choice(shapes); d = len(shape)
+        data = [rng.randint(0, 255) for _ in range(size(shape))]
+        fn = ["sum", "prod", "cumsum"][i % 3]
+        if fn == "cumsum":
+            out.append(("uint8", "u8 S:cumsum S:def %s I:%d N" % (A(shape, data), rng.randrange(d)), "c08s")); continue
+        if rng.random() < 0.15: ax = "N"
+        else:
+            sub = rng.sample(range(d), rng.randint(1, d)); sub = [a - d if rng.random() < 0.5 else a for a in sub]
+            ax = "I:%d" % sub[0] if (len(sub) == 1 and rng.random() < 0.5) else L(sub)
+        init = "N" if rng.random() < 0.5 else "I:%d" % rng.randint(0, 255)
+        out.append(("uint8", "u8 S:%s S:%s %s %s %s" % (fn, ["def", "rt1", "ct0"][(i // 3) % 3], A(shape, data), ax, init), "c08s"))
     for shape in shapes:
         if len(shape) in (2, 3) and rng.random() < 0.5:
             out.append(("statistics", "trace %s" % A(shape, [rng.randint(-9, 9) for _ in range(size(shape))]), "c08s"))
